@@ -84,6 +84,7 @@ func (c *Configuration) validate() (bool, error) {
 		}
 	}
 
+	seen := make(map[string]bool)
 	for index, serviceName := range c.ServiceNameList {
 		switch {
 		case serviceName == "nchf-convergedcharging":
@@ -94,6 +95,12 @@ func (c *Configuration) validate() (bool, error) {
 				serviceName + ", should be nchf-convergedcharging.")
 			return false, err
 		}
+		if seen[serviceName] {
+			err := errors.New("Invalid serviceNameList[" + strconv.Itoa(index) + "]: " +
+				serviceName + " is listed twice.")
+			return false, err
+		}
+		seen[serviceName] = true
 	}
 
 	result, err := govalidator.ValidateStruct(c)
